@@ -109,6 +109,41 @@ func condHandlers(c *Ctx, rule string, want func(name string) bool, etags bool) 
 					for _, s := range sites {
 						if s.tag != nil && s.tag.String() == tag.String() && st.HasFact(mkFact(false, "true", &Term{K: 'r', Name: "res0", Pos: s.call.Lparen}, nil)) {
 							ok2 = true
+							// the tag variable still holds what was tested: no
+							// assignment to it between the test and the mutation
+							if tag.K == 'v' {
+								sc := s.call
+								gen := func(n ast.Node) bool { return n.Pos() <= sc.Pos() && sc.End() <= n.End() }
+								kill := func(n ast.Node) bool {
+									if gen(n) {
+										return false
+									}
+									killed := false
+									ast.Inspect(n, func(m ast.Node) bool {
+										switch x := m.(type) {
+										case *ast.FuncLit:
+											return false
+										case *ast.AssignStmt:
+											for _, l := range x.Lhs {
+												if id, ok := l.(*ast.Ident); ok && info.ObjectOf(id) == tag.Obj {
+													killed = true
+												}
+											}
+										case *ast.UnaryExpr:
+											if x.Op == token.AND {
+												if id, ok := unparen(x.X).(*ast.Ident); ok && info.ObjectOf(id) == tag.Obj {
+													killed = true
+												}
+											}
+										}
+										return true
+									})
+									return killed
+								}
+								if !ff.MustFlag(gen, kill)(call) {
+									ok2 = false
+								}
+							}
 						}
 					}
 				}
@@ -412,6 +447,29 @@ func checkAtomicReplace(c *Ctx, rule, name string, fs *FuncSrc, needSync bool) {
 		return call != nil && isMethodOn(info, call, "Name", fileVar)
 	}
 	c.Check(fileVar != nil && isTempName(rename.Args[0]), rule, name+": renames the temporary file", rename.Pos(), "os.Rename(f.Name(), target)", "the file renamed over the target is not the temporary file that was written")
+	// (b') nothing but the temporary file is removed once the replacement has begun
+	okKeep, nrm := true, 0
+	ast.Inspect(fs.Body(), func(n ast.Node) bool {
+		call, ok := n.(*ast.CallExpr)
+		if !ok || len(call.Args) != 1 {
+			return true
+		}
+		f := calleeOf(&CallSite{Call: call, In: fs})
+		if f == nil || f.Pkg() == nil || f.Pkg().Path() != "os" || (f.Name() != "Remove" && f.Name() != "RemoveAll" && f.Name() != "Truncate") {
+			return true
+		}
+		if isTempName(call.Args[0]) {
+			return true
+		}
+		nrm++
+		if ff.ReachableFrom(create, call) {
+			okKeep = false
+		}
+		return true
+	})
+	c.Check(okKeep, rule, name+": the old version stays in place until the rename", rename.Pos(),
+		fmt.Sprintf("no removal of anything but the temporary file is reachable after CreateTemp (%d removal(s) before it)", nrm),
+		"the target (or another file) is removed after the replacement has begun and before the rename: a reader, a crash or a failing rename in between finds no file at all")
 	// (c), (d) path-sensitive
 	type viol struct{ what, where string }
 	var viols []viol
